@@ -72,10 +72,11 @@ theorem pad_aux (W L : Nat) : (if L < W then (W : Int) - (L : Int) else 0).toNat
   split <;> omega
 
 /-- print_s pads like the spec's `pad` -/
-theorem printS_iso (mem : List Char) (W m : Nat) (ops : Ops) (body : List Char)
+theorem printS_iso (mem : List Char) (W m : Nat) (ops : Ops) (body : List Char) (hc : ops.chr = false)
     (h : isoStr mem (if ops.prec then some m else none) = some body) :
     ∃ pc, printS mem W m ops = some (pad ops.left W body, pc) := by
   unfold printS
+  simp only [hc, Bool.false_eq_true, ↓reduceIte]
   cases hp : ops.prec
   · simp only [hp, Bool.false_eq_true, ↓reduceIte, isoStr] at h
     split at h
@@ -96,6 +97,13 @@ theorem printS_iso (mem : List Char) (W m : Nat) (ops : Ops) (body : List Char)
       cases hl : ops.left <;> simp [pad, ht', pad_aux]
     · simp at h
 
+
+/-- `%c`: print_s with OPS_SPEC_CHAR emits exactly the first byte, whatever it is -/
+theorem printS_chr (c x : Char) (W m : Nat) (ops : Ops) (hc : ops.chr = true) :
+    ∃ pc, printS [c, x] W m ops = some (pad ops.left W [c], pc) := by
+  unfold printS
+  simp only [hc, ↓reduceIte, List.length_cons, List.length_nil]
+  cases hl : ops.left <;> simp [pad] <;> split <;> simp <;> omega
 
 /-! what print_s reads -/
 
@@ -136,17 +144,33 @@ theorem strnlen_append {pre : List Char} {p n : Nat} (rest : List Char) (h : str
 theorem printS_append (pre rest : List Char) (W m : Int) (ops : Ops) (r : List Char × Int)
     (h : printS pre W m ops = some r) : printS (pre ++ rest) W m ops = some r := by
   unfold printS at h ⊢
-  cases hlen : (if ops.prec = true then strnlen pre m.toNat else strlen pre) with
+  cases hlen : (if ops.chr = true then (if 1 ≤ pre.length then some 1 else none)
+      else if ops.prec = true then strnlen pre m.toNat else strlen pre) with
   | none => simp [hlen] at h
   | some n =>
-    have hlen' : (if ops.prec = true then strnlen (pre ++ rest) m.toNat else strlen (pre ++ rest)) = some n := by
-      cases hp : ops.prec
-      · simp only [hp, Bool.false_eq_true, if_false] at hlen ⊢; exact strlen_append rest hlen
-      · simp only [hp, if_true] at hlen ⊢; exact strnlen_append rest hlen
     have hle : n ≤ pre.length := by
       split at hlen
-      · exact (strnlen_le hlen).1
-      · exact Nat.le_of_lt (strlen_le hlen)
+      · split at hlen
+        · cases hlen; assumption
+        · cases hlen
+      · split at hlen
+        · exact (strnlen_le hlen).1
+        · exact Nat.le_of_lt (strlen_le hlen)
+    have hlen' : (if ops.chr = true then (if 1 ≤ (pre ++ rest).length then some 1 else none)
+        else if ops.prec = true then strnlen (pre ++ rest) m.toNat else strlen (pre ++ rest)) = some n := by
+      cases hc : ops.chr
+      · simp only [hc, Bool.false_eq_true, if_false] at hlen ⊢
+        cases hp : ops.prec
+        · simp only [hp, Bool.false_eq_true, if_false] at hlen ⊢; exact strlen_append rest hlen
+        · simp only [hp, if_true] at hlen ⊢; exact strnlen_append rest hlen
+      · simp only [hc, if_true] at hlen ⊢
+        have h1 : 1 ≤ pre.length := by
+          by_cases hx : 1 ≤ pre.length
+          · exact hx
+          · rw [if_neg hx] at hlen; cases hlen
+        rw [if_pos h1] at hlen
+        rw [if_pos (by simp only [List.length_append]; omega)]
+        exact hlen
     simp only [hlen] at h
     simp only [hlen']
     rw [List.take_append_of_le_length hle]
